@@ -17,7 +17,16 @@ from lib import *
 def build_entry(e):
     k = e["k"]
     if k == "int":
-        return np.int64(e["v"]) if e.get("as") == "np" else int(e["v"])
+        a = e.get("as")
+        if a == "np0d":
+            return np.array(int(e["v"]))                 # a 0-d integer array is an integer
+        if a == "torch0d":
+            return torch.tensor(int(e["v"]))
+        return np.int64(e["v"]) if a == "np" else int(e["v"])
+    if k == "mask":                                      # a mask tensor accepting exactly one binary string
+        return tn.Tensor([torch.tensor([[[1.0], [0.0]]]) if b == 0 else torch.tensor([[[0.0], [1.0]]]) for b in e["v"]])
+    if k == "bool":                                      # a Boolean mask (outside the grammar: reject, or select like NumPy)
+        return torch.tensor(e["v"], dtype=torch.bool) if e.get("as") == "torch" else np.array(e["v"], dtype=bool)
     if k == "slice":
         return slice(e["a"], e["b"], e["s"])
     if k == "none":
@@ -57,6 +66,10 @@ def spec_index(x, entries):
         raise SpecError("second-ellipsis")
     if any(e["k"] == "float" for e in entries):
         raise SpecError("non-integer")
+    if any(e["k"] == "bool" for e in entries):
+        raise SpecError("boolean-mask")
+    if any(e["k"] == "mask" for e in entries):
+        raise SpecError("mask-tensor")
     real = [e for e in entries if e["k"] in ("int", "slice", "idx")]
     if len(real) > N:
         raise SpecError("too-many")
@@ -130,7 +143,7 @@ def spec_index(x, entries):
 
 
 def pattern(entries):
-    L = {"int": "i", "slice": "s", "none": "n", "ell": "e", "idx": "a", "float": "f"}
+    L = {"int": "i", "slice": "s", "none": "n", "ell": "e", "idx": "a", "float": "f", "bool": "b", "mask": "m"}
     return "".join(L[e["k"]] for e in entries)
 
 
@@ -138,7 +151,8 @@ def pattern(entries):
 
 def g_int(rng, size, as_=None):
     v = rng.randint(-size, size - 1)
-    return {"k": "int", "v": v, "as": as_ or ("np" if rng.random() < 0.15 else "int")}
+    r = rng.random()
+    return {"k": "int", "v": v, "as": as_ or ("np" if r < 0.15 else "np0d" if r < 0.2 else "torch0d" if r < 0.27 else "int")}
 
 
 def g_slice(rng, size):
@@ -287,10 +301,16 @@ class Prop:
                 for rep in range(3 if quick else 12):
                     shape = g_shape(rng, N)
                     kinds = [f] + [rng.choice(KINDS) for _ in range(N - 1)]
-                    for e in (g_int(rng, shape[0], "int"), g_int(rng, shape[0], "np"), g_slice(rng, shape[0]), NONE, ELL,
+                    m1 = {"k": "bool", "v": [rng.random() < 0.5 for _ in range(shape[0])], "as": rng.choice(["torch", "np"])}
+                    mN = {"k": "bool", "v": np.array([rng.random() < 0.4 for _ in range(int(np.prod(shape)))]).reshape(shape).tolist(),
+                          "as": rng.choice(["torch", "np"])}
+                    for e in (g_int(rng, shape[0], "int"), g_int(rng, shape[0], "np"), g_int(rng, shape[0], "np0d"),
+                              g_int(rng, shape[0], "torch0d"), g_slice(rng, shape[0]), NONE, ELL,
                               g_idx(rng, shape[0], rng.randint(1, 3), "list"), g_idx(rng, shape[0], 2, "torch"),
-                              g_idx(rng, shape[0], 0, "list")):
+                              g_idx(rng, shape[0], 0, "list"), m1, mN):
                         mk(g_tensor(rng, shape, kinds), [e], top="bare", stream="bare")
+                    if all(s_ >= 2 for s_ in shape):
+                        mk(g_tensor(rng, shape, kinds), [{"k": "mask", "v": [rng.randint(0, 1) for _ in shape]}], top="bare", stream="bare")
         # (e) seeded random, N=1..4, special tensors
         def rand_key(shape):
             N = len(shape); P = rng.randint(0, 3) if rng.random() < 0.1 else rng.randint(1, 3)
@@ -500,6 +520,19 @@ class Prop:
             try:
                 y, scalar = spec_index(x, case["key"]["entries"])
             except SpecError as e:
+                ents = case["key"]["entries"]
+                if str(e) == "boolean-mask" and case["key"].get("top") == "bare" and len(ents) == 1:
+                    # outside the grammar: rejecting it is fine, a result must be NumPy's selection (never a wrong tensor)
+                    y = x[np.array(ents[0]["v"], dtype=bool)]
+                    out = self._spec(y, False); out["ok"] = True; out["either"] = True
+                    return out
+                if str(e) == "mask-tensor" and case["key"].get("top") == "bare" and len(ents) == 1:
+                    # "selection via binary indexing" (docstring): per mode, symbol 0 = the first index, symbol 1 = all the
+                    # others; a single selected index is an integer.  Outside the C03 grammar: reject, or do exactly this
+                    key = tuple((0 if b == 0 else (1 if x.shape[n] == 2 else slice(1, None))) for n, b in enumerate(ents[0]["v"]))
+                    y = x[key]
+                    out = self._spec(y, y.ndim == 0); out["ok"] = True; out["either"] = True
+                    return out
                 return {"ok": False, "why": str(e)}
             out = self._spec(y, scalar); out["ok"] = True
             return out
@@ -545,6 +578,8 @@ class Prop:
             return (not res["ok"], "key outside the grammar (%s) must raise, got a result of shape %s" %
                     (exp.get("why"), res.get("shape")))
         if not res["ok"]:
+            if exp.get("either"):
+                return True, ""
             return False, "implementation raised %s: %s" % (res.get("err"), res.get("msg"))
         if "list" in exp:
             if len(res["list"]) != len(exp["list"]):
@@ -574,7 +609,7 @@ class Prop:
             return None
         tj = self._tensor(case); shape = tshape(tj); N = len(shape)
         ents = case["key"]["entries"]
-        if any(e["k"] in ("float",) for e in ents) or sum(1 for e in ents if e["k"] == "ell") > 1:
+        if any(e["k"] in ("float", "bool", "mask") for e in ents) or sum(1 for e in ents if e["k"] == "ell") > 1:
             return None
         real = [e for e in ents if e["k"] in ("int", "slice", "idx")]
         if len(real) > N:
